@@ -406,6 +406,49 @@ def build_cxx(src_path, flags, tag, extra_hash='', dev=False, src_text=None):
     return exe, '', dt, False
 
 
+class Limited:
+    """Result of run_limited: returncode (-9 when killed by the watchdog), stderr tail, reason."""
+    def __init__(self, returncode, stderr, reason=''):
+        self.returncode, self.stderr, self.reason = returncode, stderr, reason
+
+
+def run_limited(cmd, stdout_file, timeout, env=None, rss_limit_mb=3000, out_limit_mb=1500):
+    """Run a harness binary writing its transcript to `stdout_file` under a watchdog: wall-clock timeout, resident
+    memory and output size are bounded (a defect in the library can make a harness loop, allocate or print without
+    end — e.g. a cyclic plan list: that must become a verdict, not take the checker down with it)."""
+    import tempfile
+    with open(stdout_file, 'wb') as f, tempfile.TemporaryFile() as errf:
+        p = subprocess.Popen(cmd, stdout=f, stderr=errf, env=env)
+        t0, reason = time.time(), ''
+        while True:
+            try:
+                p.wait(timeout=0.25)
+                break
+            except subprocess.TimeoutExpired:
+                pass
+            if time.time() - t0 > timeout:
+                reason = 'timeout after %ds (possible non-termination inside the library)' % timeout
+            else:
+                try:
+                    with open('/proc/%d/statm' % p.pid) as sm:
+                        rss_mb = int(sm.read().split()[1]) * 4096 // (1 << 20)
+                    if rss_mb > rss_limit_mb:
+                        reason = 'resident memory above %d MB (runaway allocation)' % rss_limit_mb
+                    elif os.path.getsize(stdout_file) > out_limit_mb * (1 << 20):
+                        reason = 'output above %d MB (runaway output)' % out_limit_mb
+                except (OSError, ValueError, IndexError):
+                    pass
+            if reason:
+                p.kill()
+                p.wait()
+                break
+        errf.seek(0)
+        err = errf.read().decode('utf8', 'replace')[-4000:]
+    if reason:
+        return Limited(-9, (err + '\n' + reason).strip(), reason)
+    return Limited(p.returncode, err)
+
+
 def run_driver(component, transcript_path, timeout=1800):
     """Replay a transcript. Returns (ok, line count, message)."""
     if not os.path.exists(DRIVER):
